@@ -27,6 +27,8 @@ pub mod testonly;
 #[cfg(test)]
 mod tests;
 mod watch;
+#[cfg(feature = "verif_hooks")]
+pub mod verif;
 pub use config::*;
 pub use metrics::MeteredStreamStats;
 use zksync_consensus_roles::validator;
